@@ -99,6 +99,16 @@ def unit_attempt_field(has_prompt=True):
                 nm, val = ok
                 out.append(('stored-value-is-the-evaluation-result', z3.And(s1.V.has[nm], s1.V.val[nm] == val)))
                 out.append(('a-computed-line-is-announced-as-met', s1.MF.cnt[nm] >= 1))
+            if it.ghost.get('attempts', 0) == 0:
+                # C05: the diagnostics record what this line's own evaluation reported, whatever was attempted before it
+                fld = it.ghost['field'].ref
+                ni, od, mi = it.ghost.get('oracle_ni'), it.ghost.get('oracle_dep'), it.ghost.get('oracle_mi')
+                out.append(('recorded-unimplemented-iff-its-own-evaluation-reports-not-implemented',
+                            z3.ForAll([sm.L], s1.N.cnt[sm.L] == pre.N.cnt[sm.L] + (z3.If(sm.L == ni, 1, 0) if ni is not None else 0))))
+                if od is not None:
+                    out.append(('a-line-lacking-line-d-is-parked-on-d', s1.UF.cnt[od][fld] == pre.UF.cnt[od][fld] + 1))
+                if mi is not None:
+                    out.append(('a-line-lacking-an-input-is-parked-on-it', s1.UI.cnt[mi][fld] == pre.UI.cnt[mi][fld] + 1))
             # C04: what an attempt may schedule
             L = sm.L
             isreq = it.ghost.get('last_requires_line')
